@@ -230,6 +230,167 @@ def kernel_arg_rule(chk, src):
     return n
 
 
+
+# ------------------------------------------------------------------------------------------ reduced density matrices (tensordot chains)
+from ..axes import Tracker
+
+
+class CTracker(Tracker):
+    """axis tracker that keeps complex conjugation: the legs of X.conj() are the legs of X with a starred operand"""
+
+    def ev(self, e):
+        if isinstance(e, ast.Call) and isinstance(e.func, ast.Attribute) and e.func.attr == "conj" and not e.args:
+            return [self.star(l) for l in self.ev(e.func.value)]
+        if isinstance(e, ast.Subscript) and isinstance(e.value, ast.Name) and e.value.id == "self":
+            return list(self.env["<site>"])
+        if isinstance(e, ast.Subscript) and unparse(e) in self.env:
+            return list(self.env[unparse(e)])
+        if isinstance(e, ast.Call) and isinstance(e.func, ast.Attribute) and e.func.attr == "reshape" and len(e.args) == 2:
+            a = [unparse(x).replace(" ", "") for x in e.args]
+            base = unparse(e.func.value)
+            if a == [f"{base}.shape[0]", f"{base}.shape[-1]"]:
+                legs = self.ev(e.func.value)
+                if len(legs) == 3 and legs[1][1] == "op":
+                    return [legs[0], legs[2]]       # the identity operator's bond has dimension one
+        return super().ev(e)
+
+    @staticmethod
+    def star(l):
+        op, ax = l[0], l[1]
+        return (op[:-1] if op.endswith("*") else op + "*", ax)
+
+
+def _run_block(tr, stmts, ndim, sink):
+    """straight-line walk: assignments of tensors, `if X.ndim == k` selection, `<list>.append(expr)` captured in sink"""
+    for s in stmts:
+        if isinstance(s, ast.Assign) and len(s.targets) == 1 and isinstance(s.targets[0], ast.Name):
+            v = s.value
+            if isinstance(v, ast.Call) and unparse(v.func).endswith(".GetLR"):
+                side = ast.literal_eval(v.args[0])
+                tr.env[s.targets[0].id] = [(side, "bra"), (side, "op"), (side, "ket")]
+                continue
+            if isinstance(v, ast.BinOp) or isinstance(v, ast.Constant):
+                continue
+            tr.env[s.targets[0].id] = tr.ev(v)
+        elif isinstance(s, ast.Assign) and isinstance(s.targets[0], ast.Subscript) and unparse(s.targets[0].value) == "rdm":
+            v = s.value
+            while isinstance(v, ast.Call) and (unparse(v.func) in ("asnumpy", "asxp")):
+                v = v.args[0]
+            if isinstance(v, ast.Call) and isinstance(v.func, ast.Attribute) and v.func.attr == "reshape":
+                sink.setdefault("rdm-reshape", []).append(unparse(v)[:80])
+                v = v.func.value
+            sink.setdefault("rdm", []).append(tr.ev(v))
+        elif isinstance(s, ast.If):
+            t = unparse(s.test).replace(" ", "")
+            if ".ndim==" in t:
+                k = int(t.split("==")[1])
+                branch = s.body if k == ndim else s.orelse
+                _run_block(tr, branch, ndim, sink)
+            elif "notin" in t and isinstance(s.body[0], ast.Continue):
+                continue
+            else:
+                raise AnalysisError(f"rdm analysis: condition `{unparse(s.test)}` not understood")
+        elif isinstance(s, ast.Expr) and isinstance(s.value, ast.Call) and isinstance(s.value.func, ast.Attribute) and s.value.func.attr == "append":
+            sink.setdefault(unparse(s.value.func.value), []).append(tr.ev(s.value.args[0]))
+        elif isinstance(s, (ast.Assert, ast.Expr, ast.Pass)):
+            continue
+        else:
+            raise AnalysisError(f"rdm analysis: statement `{unparse(s)[:60]}` not understood")
+
+
+def _edge_problems(edges, ndim):
+    """bond edges join bra with bra / ket with ket (left bond axis 0 <-> right bond axis last); trace edges join the same physical axis of a site and its conjugate"""
+    out = []
+    last = ndim - 1
+    for a, b in edges:
+        sa, sb = (a[0].endswith("*") or a[1] == "bra"), (b[0].endswith("*") or b[1] == "bra")
+        ba, bb = a[0].rstrip("*"), b[0].rstrip("*")
+        env_a, env_b = a[1] in ("bra", "ket"), b[1] in ("bra", "ket")
+        if ba == bb and not env_a:
+            if a[1] != b[1] or sa == sb or a[1] in (0, last):
+                out.append(f"{a} - {b}: a site may only be joined to its own conjugate over one physical axis (partial trace)")
+            continue
+        if sa != sb:
+            out.append(f"{a} - {b}: a bra (conjugated) bond is joined to a ket bond")
+            continue
+        axes_ = []
+        for leg, is_env in ((a, env_a), (b, env_b)):
+            if is_env:
+                axes_.append("R" if leg[0].rstrip("*") == "R" else "L")
+            else:
+                axes_.append({0: "left", last: "right"}.get(leg[1], "phys"))
+        if sorted(axes_) not in (["L", "left"], ["R", "right"], ["left", "right"]):
+            out.append(f"{a} - {b}: not a (right bond, left bond) pair")
+    return out
+
+
+def rdm_rule(chk, src):
+    chk.rule("rdm-network", "one- and two-site RDM chains: bra bonds meet conjugated tensors, ket bonds plain tensors, traced physical axes pair a site with its own conjugate, "
+             "the bridging step is a loop invariant, and both RDMs list (conjugated indices, plain indices) in the same order", 8)
+    f1 = src.func(MPS, "Mps.calc_1site_rdm")
+    f2 = src.func(MPS, "Mps.calc_2site_rdm")
+    loops2 = [s for s in f2.node.body if isinstance(s, ast.For)]
+    loop1 = [s for s in f1.node.body if isinstance(s, ast.For)]
+    if len(loops2) != 2 or len(loop1) != 1:
+        raise AnalysisError("calc_1site_rdm / calc_2site_rdm: loop structure changed")
+    conv = {}
+    for ndim in (3, 4):
+        site = [("s", k) for k in range(ndim)]
+        # ---- one site
+        tr = CTracker({"ms": site, "<site>": site})
+        sink = {}
+        _run_block(tr, loop1[0].body, ndim, sink)
+        out = sink.get("rdm", [None])[-1]
+        pr = _edge_problems(tr.edges, ndim)
+        want = [("s*", 1), ("s", 1)]
+        ok = not pr and out == want and len(tr.edges) == 2 + 2 + (ndim - 3)
+        conv[("1site", ndim)] = [l[0].endswith("*") for l in (out or [])]
+        chk.ob("rdm-network", f"calc_1site_rdm [rank {ndim}]", ok, f1.where, pr[:2] or {"output": out, "contractions": len(tr.edges)}, {"output": want, "contractions": 4 + ndim - 3}, line=f1.node.lineno,
+               detail="1-site RDM: " + (pr[0] if pr else "output legs are not (conjugated physical, plain physical)") + " - the result is the complex conjugate / a wrong partial trace for complex states")
+        # ---- two site: components
+        tr = CTracker({"ms": site, "<site>": site})
+        sink = {}
+        _run_block(tr, loops2[0].body, ndim, sink)
+        pr = _edge_problems(tr.edges, ndim)
+        L, R = sink.get("L_component", [None])[-1], sink.get("R_component", [None])[-1]
+        last = ndim - 1
+        wantL, wantR = [("s*", 1), ("s", 1), ("s*", last), ("s", last)], [("s*", 0), ("s", 0), ("s*", 1), ("s", 1)]
+        chk.ob("rdm-network", f"calc_2site_rdm components [rank {ndim}]", not pr and L == wantL and R == wantR, f2.where, pr[:2] or {"L": L, "R": R}, {"L": wantL, "R": wantR}, line=loops2[0].lineno,
+               detail="left/right blocks of the 2-site RDM: " + (pr[0] if pr else "axes are not (conj phys, phys, conj bond, bond) / (conj bond, bond, conj phys, phys)"))
+        if L != wantL or R != wantR:
+            continue
+        # ---- bridging step and closing contraction
+        inner = [s for s in ast.walk(loops2[1]) if isinstance(s, ast.For) and s is not loops2[1]]
+        if len(inner) != 1:
+            raise AnalysisError("calc_2site_rdm: inner loop over the second site not found")
+        bridge = [s for s in inner[0].body if isinstance(s, ast.If)]
+        rest = [s for s in inner[0].body if not isinstance(s, ast.If)]
+        if len(bridge) != 1:
+            raise AnalysisError("calc_2site_rdm: bridging block not found")
+        ren = lambda legs, to: [(l[0].replace("s", to), l[1]) for l in legs]
+        k_site = [("k", x) for x in range(ndim)]
+        tr = CTracker({"tensor": ren(L, "i"), "<site>": k_site, "ms": k_site})
+        _run_block(tr, bridge[0].body, ndim, {})
+        pr = _edge_problems(tr.edges, ndim)
+        got = tr.env["tensor"]
+        want = [("i*", 1), ("i", 1), ("k*", last), ("k", last)]
+        chk.ob("rdm-network", f"calc_2site_rdm bridging step [rank {ndim}]", not pr and got == want, f2.where, pr[:2] or got, want, line=bridge[0].lineno,
+               detail="the transfer through an intermediate site must contract the bra bond with the conjugated site tensor and the ket bond with the plain one, trace its physical "
+                      "index, and return the block in the same axis order (loop invariant): " + (pr[0] if pr else "axis order changed") +
+                      " - only pairs of non-adjacent sites of complex states are affected")
+        tr = CTracker({"tensor": ren(L, "i"), "R_component[jms]": ren(R, "j"), "<site>": k_site})
+        sink = {}
+        _run_block(tr, rest, ndim, sink)
+        pr = _edge_problems(tr.edges, ndim)
+        out = sink.get("rdm", [None])[-1]
+        want = [("i*", 1), ("j*", 1), ("i", 1), ("j", 1)]
+        conv[("2site", ndim)] = [l[0].endswith("*") for l in (out or [])]
+        chk.ob("rdm-network", f"calc_2site_rdm closing contraction [rank {ndim}]", not pr and out == want, f2.where, pr[:2] or out, want, line=inner[0].lineno,
+               detail="closing: (conj bond, bond) of the left block with (conj bond, bond) of the right block; rows = conjugated indices (i, j), columns = plain indices (i, j)")
+    ok = all(conv.get(("1site", n)) == [True, False] and conv.get(("2site", n)) == [True, True, False, False] for n in (3, 4))
+    chk.ob("rdm-network", "1-site and 2-site RDM use one index convention", ok, f2.where, {f"{k[0]}/{k[1]}": v for k, v in conv.items()}, "conjugated indices first in both", line=f2.node.lineno)
+
+
 def run(chk):
     src = chk.src
     chk.explanation = (
@@ -239,7 +400,7 @@ def run(chk):
         "batched path's `l.flatten() @ r.flatten()` closing relies on; (2) every call site passes ket and bra sites to the right kernel "
         "parameters; (3) an interval analysis of _get_freq_environ proves that a cached environment never exceeds the requested length "
         "(otherwise cached left and right environments overlap and a site is contracted twice), and the caller limits the right lookup by "
-        "what the left one left over. Not decided: numeric values, RDM/entropy formulas, hash-collision handling.")
+        "what the left one left over. (4) the one- and two-site RDM tensordot chains keep bra and ket lines apart (conjugation-typed axis tracking). Not decided: numeric values, entropy formulas, hash-collision handling.")
     chk.assumptions = ["operator site tensors are (left, row, column, right); state sites (left, phys[, ancilla], right)",
                        "max_length >= 0 at every call (np.inf or len(mpo) - l_idx - 1 with l_idx <= len(mpo) - 1)"]
     chk.rule("env-network", "environment / expectation / transfer kernel == canonical transfer-matrix network (per configuration)", 18)
@@ -253,6 +414,7 @@ def run(chk):
     chk.extra["specs_interpreted"] = sorted({c_[1] for c in cases for c_ in c.calls if isinstance(c_[1], str)})[:80]
     kernel_arg_rule(chk, src)
     freq_bound_rule(chk, src)
+    rdm_rule(chk, src)
 
 
 META = {
